@@ -15,6 +15,7 @@ long verif_syscall(long nr, long a, long b);
 #undef syscall
 #include "stubs/base.h"
 #include "stubs/lock.h"
+#include "stubs/epoll_model.h"
 
 #ifndef NE
 #define NE 2
@@ -29,6 +30,7 @@ struct verif_in_t {
 	int		time_valid;
 	int		pwait2;
 	int		numfds;
+	uint8_t		rb0, wb0;	/* descriptor 0: kernel-registered / wanted bands before the wait */
 } verif_in;
 
 static struct iv_state	v_state;
@@ -63,11 +65,17 @@ ssize_t STUB(read)(int fd, void *buf, size_t n)
 	return 8;
 }
 
+static int g_wait_with_pending, g_wait_kernel_stale;
 static int fill(struct epoll_event *ev, int max)
 {
 	int i;
 
 	g_waits++;
+	/* C02: at the moment the thread goes to sleep no kernel update is pending */
+	if (!iv_list_empty(&v_state.u.epoll.notify))
+		g_wait_with_pending++;
+	if (v_fd[0].registered_bands != v_fd[0].wanted_bands || (v_fd[0].wanted_bands && !k_ep[0].present))
+		g_wait_kernel_stale++;
 	if (verif_in.n < 0) {
 		verif_errno = EINTR;	/* any other error is fatal by design */
 		return -1;
@@ -120,7 +128,17 @@ static void v_build(int with_timer)
 	v_state.numfds = verif_in.numfds;
 	v_state.u.epoll.epoll_fd = 3;
 	v_state.u.epoll.timer_fd = with_timer ? 4 : -1;
-	INIT_IV_LIST_HEAD(&v_state.u.epoll.notify);	/* nothing pending: flush is checked in its own units */
+	/* descriptor 0 may have a pending change of wanted bands queued for the flush */
+	INIT_IV_LIST_HEAD(&v_state.u.epoll.notify);
+	k_epfd = 3; k_fdnum[0] = 40; k_fdnum[1] = 41; k_fdnum[2] = -7;
+	v_fd[0].fd = 40; v_fd[1].fd = 41;
+	v_fd[0].registered_bands = verif_in.rb0 & 7; v_fd[0].wanted_bands = verif_in.wb0 & 7;
+	k_ep[0].present = v_fd[0].registered_bands != 0;
+	k_ep[0].events = ((v_fd[0].registered_bands & MASKIN) ? EPOLLIN : 0) | ((v_fd[0].registered_bands & MASKOUT) ? EPOLLOUT : 0);
+	k_ep[0].ptr = &v_fd[0];
+	INIT_IV_LIST_HEAD(&v_fd[0].list_notify);
+	if (v_fd[0].registered_bands != v_fd[0].wanted_bands)
+		iv_list_add_tail(&v_fd[0].list_notify, &v_state.u.epoll.notify);
 	INIT_IV_LIST_HEAD(&v_active);
 	v_state.time_valid = verif_in.time_valid;
 	v_state.time.tv_sec = verif_in.now_sec;
@@ -145,6 +163,7 @@ static void check_common(int r, int expect_ret)
 			timers++;
 	}
 	__CPROVER_assert(g_waits == 1, "[C07] exactly one kernel wait");
+	__CPROVER_assert(g_wait_with_pending == 0 && g_wait_kernel_stale == 0 && k_ctl_bad == 0, "[C02] deferred ADD/MOD/DEL are flushed before every wait: when the thread sleeps the kernel's interest equals the wanted bands");
 	__CPROVER_assert(v_state.time_valid == 0, "[C04,C15] the cached clock is invalidated after every wait, also an interrupted one");
 	__CPROVER_assert(g_mr_bad == 0, "[C03] only real descriptors are made ready, one band at a time, on the caller's batch (the kick and timer entries are never treated as descriptors)");
 	__CPROVER_assert(g_mr[0] == exp[0] && g_mr[1] == exp[1], "[C03,C02] ready bands are exactly the bands of the kernel-reported events: IN|ERR|HUP->in, OUT|ERR|HUP->out, ERR|HUP->err; unreported descriptors are not touched");
